@@ -282,9 +282,10 @@ def r07_7(ctx):
 @rule("R07.8", min_instances=20, desc="producers of the sampled quantities: collocation lists (incl. algebraic values at nodes) and the refined-sampling wiring (shared with C02/C08)")
 def r07_8(ctx):
     from .layout_rules import collocation_content
-    from .c08 import r08_2
+    from .c08 import r08_2, r08_9
     collocation_content(ctx)
     r08_2(ctx)
+    r08_9(ctx)
 
 
 @rule("R07.9", min_instances=10, desc="placeholder resolution used by every sampled / valued expression: pairing, phase override, fixed point (shared with C05)")
